@@ -50,7 +50,8 @@ class QInteger(QToken):
     def check(string: str):
         token = ""
         for char in string:
-            if char.isdigit():
+            # isdecimal and not isdigit: int() can't parse digits such as "²"
+            if char.isdecimal():
                 token += char
             else:
                 break
@@ -163,9 +164,16 @@ class QFunction(QToken):
         args_str = string[arg_start + 1 : arg_end]
         while args_str:
             (arg_t, arg), args_str = _parse_token(args_str, namespace)
-            comma = args_str.find(",")
-            if comma != -1:
-                args_str = args_str[comma + 1 :]
+            if not arg_t:
+                break  # Only whitespace left
+            # The argument is followed by a comma or by nothing
+            args_str = args_str.strip()
+            if args_str:
+                if args_str[0] != ",":
+                    raise QueryParseException(
+                        f"Expected a comma between arguments of {name}, got: {args_str}"
+                    )
+                args_str = args_str[1:]
             args.append(arg_t.parse(arg, namespace))
         return QFunction(name, args)
 
@@ -210,7 +218,7 @@ class QFunction(QToken):
             prev_char = char
         if to_consume != 0:
             return None, string
-        return string[:i], string[i + 1 :]
+        return string[:i], string[i:]
 
 
 class QDict(QToken):
@@ -225,12 +233,9 @@ class QDict(QToken):
 
     @staticmethod
     def parse(string: str, namespace: dict) -> QToken:
-        entries_str = string[1:-1]
+        entries_str = string[1:-1].strip()
         d: Dict[str, QToken] = {}
         while len(entries_str) > 0:
-            entries_str = entries_str.strip()
-            if len(d) > 0 and entries_str[0] == ",":
-                entries_str = entries_str[1:]
             # parse key
             (key_t, key_str), entries_str = _parse_token(entries_str, namespace)
             if key_t != QString:
@@ -238,7 +243,7 @@ class QDict(QToken):
             key = QString.parse(key_str, {}).value
             entries_str = entries_str.strip()
             # Remove :
-            if entries_str[0] != ":":
+            if len(entries_str) == 0 or entries_str[0] != ":":
                 raise QueryParseException("Key in dict is not followed by a :")
             entries_str = entries_str[1:]
             # parse val
@@ -248,6 +253,16 @@ class QDict(QToken):
             val = val_t.parse(val_str, namespace)
             # set
             d[key] = val
+            # The entry is followed by a comma or by nothing
+            entries_str = entries_str.strip()
+            if len(entries_str) > 0:
+                if entries_str[0] != ",":
+                    raise QueryParseException(
+                        f"Expected a comma between dict entries, got: {entries_str}"
+                    )
+                entries_str = entries_str[1:].strip()
+                if len(entries_str) == 0:
+                    raise QueryParseException("Dict expected an entry after the comma")
         return QDict(d)
 
     @staticmethod
@@ -275,7 +290,7 @@ class QDict(QToken):
             if to_consume == 0:
                 break
             prev_char = char
-        return string[:i], string[i + 1 :]
+        return string[:i], string[i:]
 
 
 class QList(QToken):
@@ -290,12 +305,9 @@ class QList(QToken):
 
     @staticmethod
     def parse(string: str, namespace: dict) -> QToken:
-        entries_str = string[1:-1]
+        entries_str = string[1:-1].strip()
         ls: List[QToken] = []
         while len(entries_str) > 0:
-            entries_str = entries_str.strip()
-            if len(ls) > 0 and entries_str[0] == ",":
-                entries_str = entries_str[1:]
             # parse
             (val_t, val_str), entries_str = _parse_token(entries_str, namespace)
             if not val_t:
@@ -303,6 +315,16 @@ class QList(QToken):
             val = val_t.parse(val_str, namespace)
             # set
             ls.append(val)
+            # The entry is followed by a comma or by nothing
+            entries_str = entries_str.strip()
+            if len(entries_str) > 0:
+                if entries_str[0] != ",":
+                    raise QueryParseException(
+                        f"Expected a comma between list entries, got: {entries_str}"
+                    )
+                entries_str = entries_str[1:].strip()
+                if len(entries_str) == 0:
+                    raise QueryParseException("List expected a value after the comma")
         return QList(ls)
 
     @staticmethod
@@ -330,7 +352,7 @@ class QList(QToken):
             if to_consume == 0:
                 break
             prev_char = char
-        return string[:i], string[i + 1 :]
+        return string[:i], string[i:]
 
 
 qtypes: Sequence[Type[QToken]] = [QString, QInteger, QFunction, QDict, QList, QVariable]
@@ -342,9 +364,9 @@ def _parse_token(string: str, namespace: dict) -> Tuple[Tuple[Any, str], str]:
         raise QueryParseException(
             "Reached unreachable, cannot parse something that isn't a string"
         )
+    string = string.strip()
     if len(string) == 0:
         return (None, ""), string
-    string = string.strip()
     token = None
     t = None  # Declare so we can return it
     for t in qtypes:
